@@ -27,7 +27,7 @@ def run(ctx, op_timeout=3):
             jobs.append(("reg:%s:%s" % (kf["id"], os.path.basename(w)), kf, head, script.lstrip("\n"), text))
     if not jobs:
         return 0
-    out = ctx.batch([(j[0], j[3]) for j in jobs], clean=True, op_timeout=op_timeout)
+    out = ctx.batch([(j[0], j[3]) for j in jobs], clean=True, op_timeout=op_timeout, retry_timeouts=False)
     bad = 0
     for (name, kf, head, script, text) in jobs:
         lines = [l for l in out.get(name, []) if l]
